@@ -110,14 +110,15 @@ def mkproj(base: str, nroots: Any) -> List[str]:
         (p / 'z').mkdir()
         (p / 'z' / 'data.txt').write_text('not a package')
         (p / 'sub' / '__init__.py').write_text('')
-        (p / 'sub' / 'm.py').write_text(f'from zope.interface import Interface, implementer\nclass IA(Interface): pass\nclass IB(Interface): pass\n@implementer(IA, IB)\nclass S:\n    x = y = 1\n')
-        (p / 'sub' / 'n.py').write_text('from .m import S\nclass T(S): pass\nclass U(S): pass\n')
+        (p / 'sub' / 'm.py').write_text('from zope.interface import Interface, implementer\n' + ''.join(f'class I{c}(Interface):\n    def run():\n        "run as I{c} says"\n    def only{c}(): "o"\n' for c in 'ABCDEF')
+                                        + '@implementer(IA, IB, IC, ID, IE, IF)\nclass S:\n    x = y = 1\n')
+        (p / 'sub' / 'n.py').write_text('from .m import S\nclass T(S):\n    def run(self): pass\n    def onlyC(self): pass\nclass U(S):\n    def run(self):\n        "own doc"\n')
         roots.append(str(p))
     return roots
 
 
 def run(roots: Sequence[str], out: str, seed: int, listorder: Optional[str], name: Optional[str], extra: Sequence[str],
-        epoch: Optional[str] = '1000000', now: Optional[str] = None) -> Tuple[int, str]:
+        epoch: Optional[str] = '1000000', now: Optional[str] = None, tz: Optional[str] = None) -> Tuple[int, str]:
     env = dict(os.environ, PYTHONHASHSEED=str(seed), PYTHONPATH=os.path.join(HOME, 'mc', 'sitecustom') + os.pathsep + REPO, PYTHONDONTWRITEBYTECODE='1')
     env.pop('VERIF_LISTORDER', None)
     env.pop('SOURCE_DATE_EPOCH', None)
@@ -126,6 +127,8 @@ def run(roots: Sequence[str], out: str, seed: int, listorder: Optional[str], nam
         env['SOURCE_DATE_EPOCH'] = epoch
     if now is not None:
         env['VERIF_FAKE_NOW'] = now
+    if tz:
+        env['TZ'] = tz
     if listorder:
         env['VERIF_LISTORDER'] = listorder
     cwd = os.path.dirname(out)
@@ -219,9 +222,10 @@ def judge_project(nroots: int, named: bool, variant: str, tier: str, res: Dict[s
         # the clock: the same build time given as SOURCE_DATE_EPOCH or --buildtime, runs made at two different (owned) wall-clock times
         for how, epoch, bt in BUILD_TIMES if (variant == 'default' or tier == 'thorough') else ():
             outs = []
-            for now in ('1700000000', '1893456789'):
+            for now, tz in (('1700000000', 'UTC0'), ('1893456789', 'JST-9' if how.startswith('epoch') else 'UTC0')):
+                # (SOURCE_DATE_EPOCH names an instant: the machine's time zone is not part of the inputs; --buildtime is a local wall-clock text and is not moved)
                 o = os.path.join(base, 'cwd', f'clock{len(outs)}')
-                rc, tail = run(roots, o, 0, None, name, list(extra) + bt, epoch=epoch, now=now)
+                rc, tail = run(roots, o, 0, None, name, list(extra) + bt, epoch=epoch, now=now, tz=tz)
                 res['evals'] += 1; res['traces'] += 1
                 outs.append((o, tree(o) if os.path.isdir(o) else {}))
             (o1, t1), (o2, t2) = outs
